@@ -105,6 +105,31 @@ CHECKS["C04"] = {
                     "contract layouts come from extract/contracts.py run on the current contract sources"],
 }
 
+_D5 = [1, 2, 3, 4, 5]
+_D4 = [1, 2, 3, 5]
+CHECKS["C12"] = {
+    "runs": [
+        {"pkg": "./pkg/vaa", "entry": "VerifC12_Keys", "reach": ["equal-keys", "gov-prefix-hit", "prefix-hit"], "opts": {"exactfmt": "true"},
+         "shards": {"quick": ["maxseq=10;a.ec.digits=%d" % a for a in _D5],
+                    "thorough": ["maxseq=1000;a.ec.digits=%d;p.ec.digits=%d" % (a, b) for a in _D5 for b in _D5]},
+         "timeout": {"quick": 1500, "thorough": 20000}},
+        {"pkg": "./pkg/db", "entry": "VerifC12_Store", "reach": ["lookup-absent", "lookup-present", "stream-empty", "stream-nonempty"], "opts": {"exactfmt": "true"},
+         "shards": {"quick": ["nvaa=0,1"] + ["nvaa=2;q.tc.digits=%d;v.tc.digits#0=%d" % (a, b) for a in _D4 for b in _D4],
+                    "thorough": ["nvaa=0,1"] + ["nvaa=2;q.tc.digits=%d;v.tc.digits#0=%d" % (a, b) for a in _D4 for b in _D4] +
+                                ["nvaa=3;v.ec.digits=1,2;q.ec.digits=1,2;v.tc.digits=1,2,3;q.tc.digits=%d;v.tc.digits#0=%d" % (a, b) for a in (1, 2, 3) for b in (1, 2, 3)]}},
+        {"pkg": "./pkg/db", "entry": "VerifC12_GovBatch", "reach": ["some", "none"], "opts": {"exactfmt": "true"},
+         "shards": {"quick": ["nvaa=0,1"] + ["nvaa=2;gov.ec.digits=%d;v.tc.digits#0=%d" % (a, b) for a in _D4 for b in _D4],
+                    "thorough": ["nvaa=0,1"] + ["nvaa=2;gov.ec.digits=%d;v.tc.digits#0=%d" % (a, b) for a in _D4 for b in _D4]}},
+    ],
+    "bounds": {"quick": {"key lemmas": "two fully symbolic identifiers: every 16-bit emitter/target chain id (all five decimal digit counts), every 32-byte address, sequences < 10",
+                         "store": "0..2 stored VAAs with symbolic ids (chain ids from the digit classes 1,2,3,5 digits, address bytes 0 and 31 symbolic, sequence 0..3, ids may coincide) + one symbolic query id; lookup, gap scan and governance batch on the real db code over a key-value model of badger",
+                         "unwind": 3000},
+               "thorough": {"key lemmas": "sequences < 1000", "store": "additionally 3 stored VAAs with chain ids of 1..3 digits"}},
+    "outside": "badger itself (modelled as a key->value map whose prefix iteration visits exactly the keys having the prefix); 4-digit chain ids in the store harness (covered by the key lemmas); more than 3 stored VAAs; sequences >= 1000 in keys and > 3 in the gap loop (at 2^64-1 the gap loop cannot terminate - noted, not a property subject); the order of batch results",
+    "assumptions": ["badger model (DESIGN 4.4): Get of an absent key returns ErrKeyNotFound; an iterator visits exactly the present keys that have the Seek prefix",
+                    "fmt %d rendered exactly: digit-count forks, digit variables tied to the value by value = sum d_i*10^i",
+                    "hex.EncodeToString modelled as the injective per-nibble rendering"],
+}
 
 # generated harness parts per (module, package): regenerated from /repo on every run for every check that loads the package
 GENERATORS = {("node", "./pkg/vaa"): [_gen_c04], ("node", "./pkg/processor"): [_gen_c07]}
